@@ -11,7 +11,9 @@ PROP = {
     "technique": "Hypothesis RuleBasedStateMachine over Data3D / ForceTorque3D / EMG: add-track and assign-track-list calls with right-length, wrong-length and wrong-kind elements at generated positions; model = the expected list of track objects (identity); invariant after every step",
     "level_text": ("Exploration of call histories: the machine interleaves valid and invalid add_track/addSignal calls with whole-list "
                    "assignments whose iterable (list, tuple, generator, generator that raises, the block's own list, a non-iterable) "
-                   "carries invalid elements at the first, a middle, the last or several positions. After every call the block's "
+                   "carries invalid elements at the first, a middle, the last or several positions; lazily evaluated views of the block's own list "
+                   "(reversed, iter, filtering generator, chain with new elements) and track objects whose public data attributes were reassigned "
+                   "to another length before they are offered are part of the alphabet. After every call the block's "
                    "track list is compared by object identity with the model, every contained track must have the block's frame "
                    "count, and the encoded size must equal nBytes."),
     "level_note": "EMG has no public list assignment; only addSignal is exercised there. Frame counts 1..8.",
@@ -20,7 +22,24 @@ PROP = {
     "assumptions": [],
 }
 
-KINDS_BAD = ["wrong-len", "wrong-len0", "wrong-len1", "wrong-len-double", "wrong-len+256", "wrong-len+65536", "none", "int", "str", "ndarray", "foreign-track", "list"]
+KINDS_BAD = ["resized-wrong", "wrong-len", "wrong-len0", "wrong-len1", "wrong-len-double", "wrong-len+256", "wrong-len+65536", "none", "int", "str", "ndarray", "foreign-track", "list"]
+
+
+def resize_track(t, tr, n, seed=0):
+    """reassign the public data attributes of an existing track object to arrays of n frames"""
+    src = make_track(t, n, "src", seed)
+    if t == "force3D":
+        tr.application_point, tr.force, tr.torque = src.application_point, src.force, src.torque
+    else:
+        tr.data = src.data
+    return tr
+
+
+def true_lengths(t, tr):
+    """frame counts of the arrays the track really carries (not what the track says about itself)"""
+    if t == "force3D":
+        return {np.asarray(tr.application_point).shape[0], np.asarray(tr.force).shape[0], np.asarray(tr.torque).shape[0]}
+    return {np.asarray(tr.data).shape[0]}
 
 
 def make_track(t, n, label="t", seed=0):
@@ -65,6 +84,11 @@ class Interp:
         self.counter += 1
         if kind == "right":
             return make_track(self.t, self.n, f"k{self.counter}", self.counter), True
+        if kind == "resized-right":   # built with another length, then given data of the block's length before it is offered
+            return resize_track(self.t, make_track(self.t, self.n + 2, f"r{self.counter}", self.counter), self.n, self.counter), True
+        if kind == "resized-wrong":   # built with the block's length, then given longer / shorter data before it is offered
+            m = self.n + 2 if self.counter % 2 or self.n == 1 else self.n - 1
+            return resize_track(self.t, make_track(self.t, self.n, "rw", self.counter), m, self.counter), False
         if kind == "wrong-len":
             return make_track(self.t, self.n + 1 + self.counter % 3, "w", self.counter), False
         if kind == "wrong-len0":
@@ -91,6 +115,8 @@ class Interp:
             k = x.nSamples if self.t == "emg" else x.nFrames
             if k != self.n:
                 self.ctx.fail(f"{self.t}/{where}/wrong-length-track-inside", f"{self.t}: block of {self.n} frames contains a track of {k} frames")
+            if true_lengths(self.t, x) != {self.n}:
+                self.ctx.fail(f"{self.t}/{where}/wrong-length-data-inside", f"{self.t}: block of {self.n} frames contains a track whose arrays have {sorted(true_lengths(self.t, x))} frames")
         if len(self.b) != len(self.model):
             self.ctx.fail(f"{self.t}/{where}/len", f"{self.t}: len() is {len(self.b)}, expected {len(self.model)}")
         w = specs.lib_write(self.b)
@@ -146,6 +172,24 @@ class Interp:
                 arg, all_valid, els = 5, False, []
             elif cont == "self":
                 arg, els, all_valid = self.b.tracks, list(self.model), True
+            elif cont.startswith("self-"):
+                # lazily evaluated views of the block's own current tracks (optionally followed by the generated new elements):
+                # legal iterables of track objects, so exactly what they yield must be installed - or everything rolled back
+                own = self.b.tracks
+                keep = list(self.model)
+                if cont == "self-reversed":
+                    arg, keep = reversed(own), keep[::-1]
+                    els, all_valid = keep, True
+                elif cont == "self-iter":
+                    arg, els, all_valid = iter(own), keep, True
+                elif cont == "self-filter":
+                    drop = keep[len(keep) // 2] if keep else None
+                    arg = (x for x in own if x is not drop)
+                    els, all_valid = [x for x in keep if x is not drop], True
+                else:  # self-chain: own tracks, then the new elements
+                    import itertools
+                    arg = itertools.chain(own, list(els))
+                    els = keep + list(els)
             elif cont == "object-array":
                 arg = np.empty(len(els), dtype=object)
                 for i_, e_ in enumerate(els):
@@ -197,13 +241,14 @@ def inits(t):
 
 
 def ops(t):
-    kind = st.sampled_from(["right", "right", "right"] + KINDS_BAD)
+    kind = st.sampled_from(["right", "right", "right", "resized-right"] + KINDS_BAD)
     add = st.fixed_dictionaries({"op": st.just("add"), "kind": kind, "channel": st.sampled_from(["auto", "explicit"])})
     if t == "emg":
         return add
-    elems = st.lists(st.sampled_from(["right"] * 6 + KINDS_BAD), max_size=6)
+    elems = st.lists(st.sampled_from(["right"] * 6 + ["resized-right"] + KINDS_BAD), max_size=6)
     assign = st.fixed_dictionaries({"op": st.just("assign"), "elems": elems,
-                                    "container": st.sampled_from(["list", "list", "tuple", "generator", "generator-raises", "non-iterable", "self", "object-array", "twice"])})
+                                    "container": st.sampled_from(["list", "list", "tuple", "generator", "generator-raises", "non-iterable", "self", "object-array", "twice",
+                                                                 "self-reversed", "self-iter", "self-filter", "self-chain"])})
     return st.one_of(add, assign, assign)
 
 
